@@ -174,9 +174,8 @@ def check(tier, seed):
         return None
 
     return R.finish(RULE, search=search,
-                    partial_note="C06_exact (counts = occurrence multiset, db = its support, for every history) is not yet proved; the "
-                                 "theorems in Properties/C06.v cover the bookkeeping layer; exactness rests on this run's oracle (equality "
-                                 "with regenerate_ref_count after every call) and correspondence")
+                    partial_note="C06_exact / C06_exact_batched (counts = occurrence counts, db = exactly the live nodes, for every history with committed / "
+                                 "aborted blocks) are proved; nested blocks and the explicit regenerate_ref_count() equality rest on this run's oracle")
 
 
 def replay(payload):
